@@ -586,6 +586,49 @@ impl World {
             // the snapshot no longer reaches the old stream; whether the matcher still does is
             // internal (it lets go at the next tick), so the old stream counter is released at the tick
         } else {
+            // the snapshot has to stay exactly as it was - immediately, not only at the next tick -
+            // and every item it refers to must stay readable
+            let now: Vec<(u32, u32)> = snap.matches().iter().map(|m| (m.score, m.idx)).collect();
+            let pat = snap_pattern_string(snap, self.cols);
+            let mut problem = None;
+            if now != frozen.matches || snap.item_count() != frozen.item_count || pat != frozen.pattern {
+                problem = Some(format!(
+                    "restart(false) changed the snapshot immediately: matches {} -> {}, item_count {} -> {}, pattern changed: {}",
+                    frozen.matches.len(),
+                    now.len(),
+                    frozen.item_count,
+                    snap.item_count(),
+                    pat != frozen.pattern
+                ));
+            } else {
+                for &(_, idx) in now.iter().take(300) {
+                    match snap.get_item(idx) {
+                        None => {
+                            problem = Some(format!("restart(false): matched item {idx} of the retained snapshot is no longer readable"));
+                            break;
+                        }
+                        Some(it) => {
+                            if let Err(e) = verify_payload(&it, self.cols) {
+                                problem = Some(format!("restart(false): retained item {idx}: {e}"));
+                                break;
+                            } else if Some(it.data.stream) != frozen.stream && frozen.stream.is_some() {
+                                problem = Some(format!("restart(false): retained item {idx} now belongs to stream {}", it.data.stream));
+                                break;
+                            }
+                        }
+                    }
+                }
+                // items counted by the retained snapshot stay readable as well
+                if problem.is_none() && frozen.item_count > 0 && frozen.matches.is_empty() {
+                    let readable = (0..frozen.item_count + 2).filter(|&i| snap.get_item(i).is_some()).count() as u32;
+                    if readable == 0 {
+                        problem = Some(format!("restart(false): the retained snapshot counts {} items but none of them is readable any more", frozen.item_count));
+                    }
+                }
+            }
+            if let Some(p) = problem {
+                self.problem("C12", "retained-snapshot-changed", p);
+            }
             self.frozen = Some(frozen);
         }
     }
